@@ -43,6 +43,11 @@ def check(ctx, filt):
         ok, cex = must_exit(fsm, s, {RXA: False}, targets={init})
         ctx.ob('C01.packet-end', 'USBTokenDetector.%s%s' % (_role(fsm, s, R), tag), ok, fsm.state_loc[s],
                'state %s must return to %s whenever rx_active is low: %s' % (s, init, cex))
+    # a rejected or finished packet must be ignored until it ends: the initial state (which re-arms on rx_active)
+    # may only be entered when rx_active is low
+    for e in fsm.in_edges(init):
+        ctx.ob('C01.idle-only-at-packet-end', 'USBTokenDetector.%s->init%s' % (_role(fsm, e.src, R), tag), (RXA, False) in q.atoms(e), e.loc,
+               'returning to the initial state while the packet is still in progress lets its remaining bytes be parsed as a new token: %s' % q.fmt(e))
     # (b)
     first = {e.dst for e in fsm.out_edges(init)}
     ctx.need(len(first) == 1, 'the PID state (successor of the initial state)')
